@@ -281,6 +281,7 @@ func (w *world) templates(xauthFriend, xauthOther []byte) []*tmpl {
 	add("inv", "inv", inv(invEntry(1, tT), invEntry(2, unk), invEntry(2, w.tipH), invEntry(0x40000001, unk)), field{0, 1, 36, "count"})
 	add("inv-1", "inv", inv(invEntry(2, w.n1.Hash())), field{0, 1, 36, "count"})
 	add("notfound", "notfound", inv(invEntry(1, tT)), field{0, 1, 36, "count"})
+	add("notfound-blk", "notfound", inv(invEntry(0x40000002, w.n1.Hash()), invEntry(0x40000002, w.n2.Hash())), field{0, 1, 36, "count"})
 	h106 := w.b106.Hash()
 	add("getdata", "getdata", inv(invEntry(0x40000002, w.tipH), invEntry(0x40000001, unk), invEntry(4, h106), invEntry(2, w.tipH), invEntry(0x40000002, unk)),
 		field{0, 1, 36, "count"})
@@ -487,6 +488,12 @@ func (g *caseGen) contexts() {
 	ready := []Event{ver, verack, msg(g.t("sendheaders")), msg(g.t("sendcmpct")), msg(g.t("headers-0")), {T: "tick"}}
 	add(&ctxt{name: "ready", prefix: ready})
 	add(&ctxt{name: "cmpct", prefix: append(append([]Event{}, ready...), msg(g.t("cmpctblock-missing")))})
+	// "dl": a FULL block download from this peer is in flight. Produced through the
+	// real code path: the peer announces two new headers (n1, n2), then an empty
+	// headers message (AllHeadersReceived), and the connection's Tick calls
+	// GetBlockData, which sends getdata and enters both hashes into
+	// c.GetBlockInProgress without a compact-block collector (col == nil).
+	add(&ctxt{name: "dl", prefix: []Event{ver, verack, msg(g.t("sendheaders")), msg(g.t("sendcmpct")), msg(g.t("headers")), msg(g.t("headers-0")), {T: "tick"}}})
 	add(&ctxt{name: "xa", prefix: []Event{ver, verack, msg(g.t("xauth"))}})
 	add(&ctxt{name: "friend", friend: true, prefix: []Event{msg(g.t("version-gocoin")), verack, msg(g.t("xauth-friend"))}})
 }
